@@ -26,7 +26,8 @@ NUM_PRIMS = st.one_of(
 INEXACT_FLOATS = st.sampled_from([0.1, 0.2, 0.3, 0.7, 1.1, 1e16, -1e16, 1.0, 2.5, 1e-9]).map(lambda x: ["f", x])
 
 def GR(*whats):
-    return st.sampled_from(whats).map(lambda w: ("GR", w))
+    return st.tuples(st.sampled_from(whats), st.sampled_from(["Grumpy", "TypeError", "ValueError", "AttributeError",
+                                                             "KeyError"])).map(lambda t: ("GR", t[0], t[1]))
 
 
 PROFILES = {
@@ -47,6 +48,7 @@ PROFILES = {
     "lists": st.tuples(st.sampled_from(["l", "l", "l", "t"]),
                        st.lists(st.integers(0, 3).map(lambda n: ["i", n]), max_size=2)).map(list),
     "unorderable": st.one_of(K, K, K, K, _v(["s", "a"], ["c", 1, 1], ["n"], ["i", 1], ["f", 1.0])),
+    "unorderable1": st.one_of(K, K, K, _v(["n"], ["s", "a"], ["n"])),
     "unhashable": st.one_of(K, K, NUM_PRIMS, _v(["l", []], ["i", 1], ["f", 1.0], ["b", True])),
 }
 _DICT_KEYS = st.one_of(K, _v(["i", 0], ["i", 1], ["f", 1.0], ["b", True], ["s", "a"], ["s", "b"],
@@ -72,7 +74,7 @@ class Uids:
             return ["I", v[1], self.n - 1]
         if isinstance(v, tuple) and v and v[0] == "GR":
             self.n += 1
-            return ["G", v[1], self.n - 1]
+            return ["G", v[1], self.n - 1, v[2] if len(v) > 2 else "Grumpy"]
         if isinstance(v, tuple) and v and v[0] == "AW":
             self.n += 1
             return ["W", self.n - 1]
@@ -149,6 +151,24 @@ def base_case(draw, name, max_len=8, max_src=4, steps="full", min_len=0, min_src
                          "alias": draw(st.integers(0, i - 1))})
             continue
         srcs.append({"items": items, "fl": "agen", "susp": 0, "csusp": False, "fault": None})
+    # all items with raising special methods of one case raise the SAME exception type, and a case has at most
+    # one object whose comparison raises on each side of a comparison: WHICH operand's method is asked first is
+    # an implementation detail (iter() asks the sentinel, asyncstdlib the value; heaps differ likewise)
+    gexc = None
+    for s_ in srcs:
+        for it in s_["items"]:
+            if it[0] == "G":
+                gexc = gexc or it[3]
+                it[3] = gexc
+    if profile == "unorderable1":
+        # exactly one unorderable stranger among orderable items
+        for s_ in srcs:
+            seen = False
+            for pos, it in enumerate(s_["items"]):
+                if it[0] != "I":
+                    if seen:
+                        s_["items"][pos] = uids.fix(("K", 1))
+                    seen = True
     fns = {}
     for role, fnkind in tool.roles:
         fns[role] = draw(fn_spec(_role_kind(role, fnkind)))
@@ -176,7 +196,7 @@ def base_case(draw, name, max_len=8, max_src=4, steps="full", min_len=0, min_src
             sentinel = uids.fix(("K", target[1])) if target[0] == "I" else target
         else:
             sentinel = value_of_profile()
-        if profile == "eq-all":
+        if profile == "eq-all" or sentinel[0] == "G":
             sentinel = draw(st.sampled_from([["n"], ["s", "never"], ["i", 77]]))
         v["sentinel"] = sentinel
         srcs[0]["tail"] = uids.fix(("K", sentinel[1])) if sentinel[0] == "I" else sentinel
